@@ -681,6 +681,17 @@ func (e *Engine) applyContractSig(st *State, fr *Frame, x *ssa.Call, name string
 			env[spec.Results[i]] = rv
 		}
 	}
+	for _, w := range spec.Witness {
+		wt := e.fresh(name+".w_"+w.Name, IntS) // existential witness
+		env[w.Name] = VInt{wt}
+		if st.witnessOf == nil {
+			st.witnessOf = map[string]*Term{}
+		}
+		st.witnessOf[name+"."+w.Name] = wt
+		if i := strings.LastIndex(name, ")."); i >= 0 {
+			st.witnessOf[name[i+2:]+"."+w.Name] = wt
+		}
+	}
 	post := &specCtx{e: e, st: st, env: env, heaps: st.heaps, oldHeaps: oldHeaps, pkg: pre.pkg, oldAlloc: oldAlloc, iters: e.freshIters(st, name)}
 	for _, u := range spec.Unfolds {
 		post.unfold(u)
